@@ -37,20 +37,26 @@ class Res:
     # -- creation --------------------------------------------------------------------------------
     def create(self, sb, clock):
         k, r = self.kind, self.rid
+        # where the watched file lies: top level, a subdirectory, a nested subdirectory (by resource number, so that every kind
+        # of dependency meets every location); a file of the SAME NAME at the top level is a decoy that nothing watches (F37: the
+        # splitter of --regex / --regex_items dropped the directory and watched the decoy)
+        loc = ['', 'in/', 'in/deep/'][r % 3]
         if k == 'file':
-            self.path = f'f{r}.txt'; sb.write(self.path, f'file {r} v0\n')
+            self.path = f'{loc}f{r}.txt'; sb.write(self.path, f'file {r} v0\n')
         elif k == 'globdir':
             self.members = {f'g{r}/m0.dat': 'm0 v0\n', f'g{r}/m1.dat': 'm1 v0\n'}
             for p, c in self.members.items(): sb.write(p, c)
         elif k == 'params':
-            self.path = f'p{r}.yaml'; self.vals = {f'k{i}': i for i in range(4)}; self._write_params(sb)
+            self.path = f'{loc}p{r}.yaml'; self.vals = {f'k{i}': i for i in range(4)}; self._write_params(sb)
         elif k == 'linesfile':
-            self.path = f'l{r}.txt'; self.lines = [f'line {i} v0' for i in range(8)]; sb.write(self.path, '\n'.join(self.lines) + '\n')
+            self.path = f'{loc}l{r}.txt'; self.lines = [f'line {i} v0' for i in range(8)]; sb.write(self.path, '\n'.join(self.lines) + '\n')
+            if loc: sb.write(f'l{r}.txt', ''.join(f'decoy line {i}\n' for i in range(8)))
         elif k == 'regexfile':
-            self.path = f'r{r}.txt'; self.lines = [f'{"sel" if i % 2 == 0 else "oth"} {i} v0' for i in range(8)]
+            self.path = f'{loc}r{r}.txt'; self.lines = [f'{"sel" if i % 2 == 0 else "oth"} {i} v0' for i in range(8)]
             sb.write(self.path, '\n'.join(self.lines) + '\n')
+            if loc: sb.write(f'r{r}.txt', ''.join(f'{"sel" if i % 2 == 0 else "oth"} decoy {i}\n' for i in range(8)))
         elif k == 'gensrc':
-            self.path = f'q{r}.txt'; sb.write(self.path, f'gen {r} v0\n')
+            self.path = f'{loc}q{r}.txt'; sb.write(self.path, f'gen {r} v0\n')
         for p in self.paths():
             clock.stamp(sb, p)
 
